@@ -215,7 +215,11 @@ def parse_const(s):
         return ("str", _unescape(m.group(1)))
     m = re.match(r"^b\"((?:[^\"\\]|\\.)*)\"$", s)
     if m:
-        return ("bytes", m.group(1))
+        g = m.group(1)
+        mm = re.match(r"^\x00(\d+)\x00$", g)
+        if mm:
+            g = STRTAB[int(mm.group(1))]
+        return ("bytes", list(bytes(g, "utf-8").decode("unicode_escape").encode("latin-1")))
     m = re.match(r"^(-?\d+)_(u8|u16|u32|u64|u128|usize|i8|i16|i32|i64|i128|isize)$", s)
     if m:
         return ("int", int(m.group(1)), m.group(2))
